@@ -71,6 +71,8 @@ def run_case(job):
         outcome = "PipeflowNotConverged"
     except Exception as e:  # noqa
         outcome = "raised:%s" % type(e).__name__
+        if isinstance(e, UserWarning) and "direction change in circulation pump" in str(e):
+            outcome = "raised:UserWarning:circ_pump_direction"      # the library's signal for a reverse-flow state (finding F20 under C05)
     case = {"id": job["id"], "l": l, "variant": var, "mode": mode, "outcome": outcome, "cons": [], "pump": {}, "ts": [1, 0],
             "pump2": {"q": [1, 0], "tout": [1, 0]}}
     if outcome != "returned":
